@@ -30,7 +30,7 @@ const char *killat_name[KA_N] = {"any", "write", "fopen", "locked", "fclose", "r
 
 // at == KA_WRITE: the kill lands inside the nth rewrite (open-truncate .. close) of `file` by `proc`, after
 // frac x (size of the job file before the rewrite) bytes have reached the file
-struct KillSpec { int proc = 0; int at = KA_ANY; int nth = 1; double frac = 0.5; int file = 0; };
+struct KillSpec { int proc = 0; int at = KA_ANY; int nth = 1; double frac = 0.5; int file = 0; long abs_bytes = -1; /* >= 0: exact byte offset (enumeration) */ };
 
 enum StartKind { ST_NOW = 0, ST_AFTER_SYNCS, ST_AFTER_END, ST_PHASE2 };
 
@@ -60,6 +60,7 @@ struct Plan : sim::PlanBase {
   uint64_t fault_seed = 0;
   long clock_jump_step = -1;          // at this simulated step every clock jumps by clock_jump
   long clock_jump = 0;
+  bool enumerate = false;             // thorough: enumerate a kill at every crash point along this plan's schedule
 };
 
 struct JobRec {
@@ -189,15 +190,17 @@ struct World : simio::Env {
   void rewrite_begins(int proc, int fileid) {
     rewrites[fileid][proc]++;
     rewrite_bytes[fileid][proc] = 0;
+    rewrite_sizes[fileid][proc].push_back(0);
     rewrite_target[fileid][proc] = -1;
     for (size_t i = 0; i < plan->kills.size(); i++) {
       const KillSpec &k = plan->kills[i];
       if (kill_done[i] || k.proc != proc || k.at != KA_WRITE || k.file != fileid || k.nth != rewrites[fileid][proc]) continue;
-      rewrite_target[fileid][proc] = (long)(k.frac * (double)last_size);
+      rewrite_target[fileid][proc] = k.abs_bytes >= 0 ? k.abs_bytes : (long)(k.frac * (double)last_size);
       kill_done[i] = true;
     }
   }
   long last_size = 0;                  // size of the job file when it was last seen complete
+  std::vector<std::vector<long>> rewrite_sizes[2];  // [file][proc] -> bytes of each completed or running rewrite
 
   simio::WriteFault write_fault(int sproc, int fileid, size_t n) override {
     simio::WriteFault wf;
@@ -239,7 +242,7 @@ struct World : simio::Env {
     if (fileid == simio::FILE_BACKUP && strcmp(op, "open-truncate") == 0) sim::set_phase(PH_BACKUP);
     if (fileid == simio::FILE_F && strcmp(op, "open-truncate") == 0) sim::set_phase(PH_WRITE);
     if (strcmp(op, "open-truncate") == 0 && proc >= 0) rewrite_begins(proc, fileid);
-    else if (proc >= 0 && bytes > 0) rewrite_bytes[fileid][proc] += bytes;
+    else if (proc >= 0 && bytes > 0) { rewrite_bytes[fileid][proc] += bytes; if (!rewrite_sizes[fileid][proc].empty()) rewrite_sizes[fileid][proc].back() += bytes; }
     if (strcmp(op, "open-read") == 0 || (strcmp(op, "close") == 0)) return;  // content unchanged
     (void)bytes;
     std::string c;
@@ -654,8 +657,34 @@ struct Jobs {
       s.start = ST_PHASE2;
       p.procs.push_back(s);
     }
-    (void)tier;
     p.pick_strategy(r);
+    if (tier == "enum") {
+      // small fault-free base plans: <= 2 phase-1 processes, <= 4 jobs, a phase-2 sweeper that names the dead
+      Plan e;
+      e.seed = p.seed; e.index = p.index; e.sched_seed = p.sched_seed; e.strat_type = p.strat_type; e.strat_p = p.strat_p; e.strat_d = p.strat_d;
+      e.J = 1 + (int)r.below(4);
+      e.init_status.assign((size_t)e.J, 0);
+      if (r.chance(0.3)) for (int j = 0; j < e.J; j++) if (r.chance(0.4)) e.init_status[(size_t)j] = 1 + (int)r.below(6);
+      int P1 = 1 + (int)r.below(2);
+      for (int i = 0; i < P1; i++) {
+        ProcSpec s;
+        s.threads = 1 + (int)r.below(2);
+        s.cache = 1 + (int)r.below(3);
+        s.maxjobs = r.chance(0.8) ? -1 : 1 + (long)r.below((uint64_t)e.J);
+        if (i > 0 && r.chance(0.4)) { s.start = ST_AFTER_SYNCS; s.start_ref = 0; s.start_k = 1 + (int)r.below(2); }
+        if (i > 0 && r.chance(0.3)) { s.restart_failed = true; }
+        e.procs.push_back(s);
+      }
+      ProcSpec sw;
+      sw.threads = 1; sw.cache = 2; sw.maxjobs = -1; sw.restart_all_dead = true; sw.restart_failed = r.chance(0.5); sw.start = ST_PHASE2;
+      e.procs.push_back(sw);
+      e.fail_rate = r.chance(0.5) ? 0 : 0.3;
+      e.fail_with_output = r.chance(0.5);
+      e.eval_max = (int)r.below(3);
+      e.fault_seed = p.fault_seed;
+      e.enumerate = true;
+      return e;
+    }
     return p;
   }
 
@@ -675,12 +704,12 @@ struct Jobs {
     js::Value ks = js::Value::arr();
     for (auto &k : p.kills) {
       js::Value o = js::Value::obj();
-      o.set("proc", k.proc).set("at", k.at).set("at_name", killat_name[k.at]).set("nth", k.nth).set("frac", k.frac).set("file", k.file);
+      o.set("proc", k.proc).set("at", k.at).set("at_name", killat_name[k.at]).set("nth", k.nth).set("frac", k.frac).set("file", k.file).set("abs_bytes", k.abs_bytes);
       ks.push(o);
     }
     v.set("kills", ks);
     v.set("short_write", p.short_write).set("short_read", p.short_read).set("fail_rate", p.fail_rate).set("fail_with_output", p.fail_with_output)
-     .set("eval_max", p.eval_max).set("fault_seed", (long long)p.fault_seed).set("clock_jump_step", p.clock_jump_step).set("clock_jump", p.clock_jump);
+     .set("eval_max", p.eval_max).set("fault_seed", (long long)p.fault_seed).set("clock_jump_step", p.clock_jump_step).set("clock_jump", p.clock_jump).set("enumerate", p.enumerate);
     return v;
   }
   static Plan from_json(const js::Value &v) {
@@ -698,12 +727,13 @@ struct Jobs {
     }
     for (auto &o : v.at("kills").a) {
       KillSpec k;
-      k.proc = (int)o.num("proc", 0); k.at = (int)o.num("at", 0); k.nth = (int)o.num("nth", 1); k.frac = o.at("frac").d; k.file = (int)o.num("file", 0);
+      k.proc = (int)o.num("proc", 0); k.at = (int)o.num("at", 0); k.nth = (int)o.num("nth", 1); k.frac = o.at("frac").d; k.file = (int)o.num("file", 0); k.abs_bytes = (long)o.num("abs_bytes", -1);
       p.kills.push_back(k);
     }
     p.short_write = v.at("short_write").d; p.short_read = v.at("short_read").d; p.fail_rate = v.at("fail_rate").d; p.fail_with_output = v.at("fail_with_output").b;
     p.eval_max = (int)v.num("eval_max", 0); p.fault_seed = (uint64_t)v.num("fault_seed", 0); p.clock_jump_step = (long)v.num("clock_jump_step", -1);
     p.clock_jump = (long)v.num("clock_jump", 0);
+    p.enumerate = v.has("enumerate") && v.at("enumerate").b;
     return p;
   }
 
@@ -787,7 +817,7 @@ struct Jobs {
     return o.str();
   }
 
-  static sim::Report execute(const Plan &plan, const sim::SchedSpec &spec) {
+  static sim::Report execute_one(const Plan &plan, const sim::SchedSpec &spec, World *keep = nullptr) {
     sim::Report rep;
     World w;
     Wd = &w;
@@ -807,7 +837,7 @@ struct Jobs {
     w.ps.assign(NP, ProcState());
     w.gate_open.assign(NP, false);
     for (int k = 0; k < KA_N; k++) w.kill_count[k].assign(NP, 0);
-    for (int f = 0; f < 2; f++) { w.rewrites[f].assign(NP, 0); w.rewrite_bytes[f].assign(NP, 0); w.rewrite_target[f].assign(NP, -1); }
+    for (int f = 0; f < 2; f++) { w.rewrites[f].assign(NP, 0); w.rewrite_bytes[f].assign(NP, 0); w.rewrite_target[f].assign(NP, -1); w.rewrite_sizes[f].assign(NP, std::vector<long>()); }
     w.last_size = (long)init.size();
     w.kill_done.assign(plan.kills.size(), false);
     w.frng.seed(plan.fault_seed, 0xfa17);
@@ -846,7 +876,7 @@ struct Jobs {
         int sp = sim::self_proc();
         if (sp <= 0) return;
         int q = sp - 1;
-        if (w.plan->kills.empty() || w.ps[q].killed) return;
+        if (w.ps[q].killed) return;
         auto hit = [&](int at) {
           w.kill_count[at][q]++;
           if (w.kill_due(q, at)) {
@@ -878,7 +908,73 @@ struct Jobs {
     std::cout.rdbuf(old_out);
     Wd = nullptr;
     (void)res;
-    return finish(plan, w, res, states, rep);
+    finish(plan, w, res, states, rep);
+    if (keep) { keep->kill_count[KA_ANY] = w.kill_count[KA_ANY]; for (int f = 0; f < 2; f++) keep->rewrite_sizes[f] = w.rewrite_sizes[f]; }
+    return rep;
+  }
+
+  // Crash-point enumeration (thorough tier): the plan is run once without faults, then once per decision point
+  // of every phase-1 process with a kill at exactly that point, and once per chosen byte offset of every rewrite
+  // of the job file and of the backup with a kill inside that write.  Scheduler seed and strategy are those of
+  // the plan, so each sub-run follows the base run's schedule up to the kill.
+  static sim::Report execute(const Plan &plan, const sim::SchedSpec &spec) {
+    if (!plan.enumerate || spec.mode != sim::SchedSpec::FROM_PLAN) return execute_one(plan, spec);
+    World base;
+    Plan p0 = plan;
+    p0.enumerate = false;
+    sim::Report rep = execute_one(p0, spec, &base);
+    if (!rep.cls.empty()) { rep.replacement_plan = to_json(p0); return rep; }
+    long points = 0, writes = 0;
+    size_t nproc = 0;
+    for (size_t q = 0; q < plan.procs.size(); q++) if (plan.procs[q].start != ST_PHASE2) nproc = q + 1;
+    auto sub = [&](const KillSpec &k) -> bool {
+      Plan p = p0;
+      p.kills.clear();
+      p.kills.push_back(k);
+      sim::Report r = execute_one(p, spec);
+      rep.steps += r.steps; rep.multi += r.multi; rep.switches += r.switches; rep.sim_time += r.sim_time;
+      for (auto &kv : r.counters) if (kv.first.compare(0, 7, "config.") != 0) rep.counters[kv.first] += kv.second;
+      for (uint64_t st : r.states) rep.states.push_back(st);
+      if (!r.cls.empty()) {
+        r.replacement_plan = to_json(p);
+        r.counters = rep.counters;
+        r.states = rep.states;
+        r.counters["enum.crash_points"] = points + writes;
+        rep = r;
+        return false;
+      }
+      return true;
+    };
+    for (size_t q = 0; q < nproc; q++) {
+      int n = q < base.kill_count[KA_ANY].size() ? base.kill_count[KA_ANY][q] : 0;
+      for (int t = 1; t <= n; t++) {
+        KillSpec k; k.proc = (int)q; k.at = KA_ANY; k.nth = t;
+        points++;
+        if (!sub(k)) return rep;
+      }
+      for (int f = 0; f < 2; f++) {
+        if (q >= base.rewrite_sizes[f].size()) continue;
+        const std::vector<long> &sizes = base.rewrite_sizes[f][q];
+        for (size_t rw = 0; rw < sizes.size(); rw++) {
+          long B = sizes[rw];
+          std::vector<long> offs;
+          if (B <= 160) for (long o = 0; o <= B; o++) offs.push_back(o);
+          else { for (long o = 0; o <= B; o += 23) offs.push_back(o); offs.push_back(1); offs.push_back(B / 2); offs.push_back(B - 1); offs.push_back(B); }
+          for (long o : offs) {
+            KillSpec k; k.proc = (int)q; k.at = KA_WRITE; k.nth = (int)rw + 1; k.file = f; k.abs_bytes = o;
+            writes++;
+            if (!sub(k)) return rep;
+          }
+        }
+      }
+    }
+    std::sort(rep.states.begin(), rep.states.end());
+    rep.states.erase(std::unique(rep.states.begin(), rep.states.end()), rep.states.end());
+    rep.counters["enum.crash_points"] = points + writes;
+    rep.counters["enum.kill_at_decision_point"] = points;
+    rep.counters["enum.kill_inside_write"] = writes;
+    rep.counters["enum.base_plans"] = 1;
+    return rep;
   }
 
   template <class Fail> static void end_checks(const Plan &plan, World &w, Fail &fail) {
